@@ -18,6 +18,8 @@ func init() {
 			rulePendingKey(c)
 			ruleKind(c)
 			ruleOptionScope(c)
+			ruleAddCodecs(c)
+			ruleSliceWrapOnly(c)
 		},
 	})
 }
